@@ -16,33 +16,46 @@ def run(ctx):
     skipped = [r for r in rows if len(r) >= 3 and r[1] == "SKIP"]
     feats = next((r[1] for r in rows if r[0] == "#FEATS"), "")
     model = ctx.model("c05", [f"{r[0]}\t{r[2]}" for r in cases]) if (cases and os.path.exists(vlib.MODEL)) else {}
-    n_eq = n_scoped = n_ill = n_corpus = 0
+    n_eq = n_scoped = n_ill = n_corpus = n_accept = 0
     distinct = set()
     samples = []
+    streams = {}
     for r in cases:
         cid, sexp, real, acc, stats, src = r[0], r[2], r[3], r[4], r[5], vlib.unesc(r[6])
         m = model.get(cid)
-        if not m or len(m) < 3:
+        if not m or len(m) < 6:
             ctx.broken_ties.append(("model driver", f"{cid}: {m}"))
             continue
-        spec_eq, scoped, impl = m[0] == "spec_eq=true", m[1] == "scoped=true", m[2]
+        spec_eq, con_ok, scoped, fresh = (m[0] == "spec_eq=true", m[1] == "con_ok=true", m[2] == "scoped=true",
+                                          m[3] == "fresh=true")
+        impl, spec = m[4], m[5]
         if not spec_eq:
-            ctx.broken_ties.append(("model≠spec (contradicts resolve_refines_spec)", cid))
+            ctx.broken_ties.append(("model≠spec although conOk holds (contradicts resolve_refines_spec)", cid))
+        if not fresh:
+            ctx.broken_ties.append(("model hands one id to two binders (contradicts binder_ids_fresh)", cid))
         uses = int(re.search(r"uses=(\d+)", stats).group(1))
         binders = int(re.search(r"binders=(\d+)", stats).group(1))
-        corpus = "stream=corpus" in stats
+        shared = re.search(r"shared=(\S+)", stats).group(1)
+        stream = re.search(r"stream=(\w+)", stats).group(1)
+        site = (re.search(r"site=(\w+)", stats) or [None, "-"])[1]
+        streams[f"{stream}/{site}"] = streams.get(f"{stream}/{site}", 0) + 1
+        corpus = stream == "corpus"
         n_corpus += corpus
         if uses >= 2 and binders >= 2:
             distinct.add(sexp)
-        if len(samples) < 3 and not corpus:
+        if len(samples) < 3 and not corpus and (site != "None" or len(samples) < 1):
             samples.append({"id": cid, "src": src, "resolution": real, "accepted": acc[:80], "well_scoped": scoped})
-        payload = {"id": cid, "src": src, "expected_resolution(spec)": impl, "observed_resolution": real,
-                   "compile": acc, "well_scoped_by_spec": scoped}
-        # (1) resolution map: the spec's resolution IS the property; a different map is a failing input
+        payload = {"id": cid, "src": src, "expected_resolution(spec)": spec, "observed_resolution": real,
+                   "model_of_implementation": impl, "compile": acc, "well_scoped_by_spec": scoped,
+                   "lowering_calls_no_local_a_constructor": con_ok, "binders_sharing_one_id": shared}
+        # (0) tie: the implementation model reproduces the real resolver
         if impl == real:
             n_eq += 1
         else:
-            exp = dict(x.split(">") for x in impl.split()) if impl else {}
+            ctx.broken_ties.append(("Model/Resolve.lean and name resolution disagree", f"{cid}: model {impl} real {real}"))
+        # (1) resolution map: the spec's resolution IS the property; a different map is a failing input
+        if spec != real:
+            exp = dict(x.split(">") for x in spec.split()) if spec else {}
             got = dict(x.split(">") for x in real.split()) if real and not real.startswith("ERROR") else {}
             kinds = set()
             for t, b in exp.items():
@@ -51,13 +64,27 @@ def run(ctx):
                     continue
                 if b == "-":
                     kinds.add("use-bound-outside-lexical-scope")
+                elif b in ("C", "G"):
+                    kinds.add("package-level-name-not-found" if g == "-" else "package-level-name-bound-to-local")
                 elif g == "-":
                     kinds.add("in-scope-use-unresolved")
+                elif g == "C":
+                    kinds.add("local-binder-loses-against-constructor")
+                elif g == "G":
+                    kinds.add("local-binder-loses-against-definition")
                 else:
                     kinds.add("use-bound-to-wrong-binder")
             ctx.report({"oracle": "resolution", "kinds": sorted(kinds) or ["resolver-error"]},
-                       "a use is resolved to a binder other than the innermost lexically enclosing one", payload)
-        # (2) acceptance: well-scoped <=> no scoping diagnostic; ill-scoped => unresolved-name diagnostic
+                       "a use is resolved to something other than the innermost lexically enclosing binder", payload)
+        elif not con_ok:
+            # (1b) AST lowering alone: cannot happen while the maps agree, kept as a separate alarm
+            ctx.report({"oracle": "lowering", "kind": "locally-bound-name-classified-as-constructor"},
+                       "AST lowering classifies a bare name with a local binder in scope as a constructor", payload)
+        # (2) binder identity: every binder occurrence is a binder of its own
+        if shared != "-":
+            ctx.report({"oracle": "binder-identity", "kind": "two-binders-one-id"},
+                       "two binder occurrences (duplicate names in one parameter list / pattern) share one LocalId", payload)
+        # (3) acceptance: well-scoped <=> no scoping diagnostic; ill-scoped => unresolved-name diagnostic
         scope_err = acc.startswith("err:") and SCOPE_ERR.search(acc)
         if scoped:
             n_scoped += 1
@@ -66,6 +93,14 @@ def run(ctx):
                            "a program that is well-scoped by the lexical rules is rejected with a scoping diagnostic", payload)
             if acc.startswith("panic:"):
                 ctx.report({"oracle": "accept", "kind": "panic"}, "compiler panics on a well-scoped program", payload)
+            # the `scoped` stream is well-typed by construction WHEN every use means its innermost
+            # binder: any rejection is a rejection for scoping reasons
+            # ... and so are the witnesses kept under corpus/C05
+            if stream == "scoped" or cid.startswith("corpus:"):
+                n_accept += 1
+                if acc.startswith("err:") and not scope_err:
+                    ctx.report({"oracle": "accept", "kind": "well-scoped-well-typed-program-rejected"},
+                               "a program (generated, or a kept witness) that is well-scoped and, read by the lexical rules, well-typed is rejected", payload)
         else:
             n_ill += 1
             if acc == "ok":
@@ -78,8 +113,13 @@ def run(ctx):
     ctx.violations.sort(key=lambda v: len(v[2].get("src", "")))
     cov = {
         "evaluations": len(cases), "distinct_nontrivial": len(distinct),
-        "rule": "one case = one goml program (corpus + generated scope nests over names a,b,c in let/if/match-arm/closure/while positions); "
-                "non-trivial = at least 2 binders and 2 identifier uses; distinct by the scope tree sent to the model",
+        "rule": "one case = one goml program (corpus + generated scope nests in let/if/match-arm/closure/while/tuple- and struct-pattern "
+                "positions; names a,b,c, or names spelled like the constructors of an enum of the same file / another file of the "
+                "package / an imported package, like the helper function, the enum type, a struct; duplicate names in one parameter "
+                "list / pattern in a fifth of them); non-trivial = at least 2 binders and 2 identifier uses; distinct by the scope "
+                "tree sent to the model",
+        "streams(stream/enum-site)": dict(sorted(streams.items())),
+        "must_be_accepted(scoped stream)": n_accept,
         "samples": samples,
         "resolution_maps_equal": n_eq, "well_scoped_cases": n_scoped, "ill_scoped_cases": n_ill,
         "corpus_cases": n_corpus, "skipped_unparsable": len(skipped), "generator_features": feats,
@@ -87,7 +127,9 @@ def run(ctx):
     }
     ctx.assumptions += [
         "the scope tree sent to the model is the real ast::File produced by the repository's parser and lowering (harness/src/c05.rs)",
-        "identifier uses that the real resolver binds to items, builtins or constructors are treated as an outermost scope",
+        "package-level names (constructors per file, definitions, builtins) are read off the declarations of the real AST and form the outermost scope; "
+        "which of a bare name in PATTERN position is a constructor pattern is taken from the real AST (lower.rs: the name is a variant of an enum "
+        "or a struct declared in the SAME file), it is not a use and the property does not decide it",
     ]
     tb = ["Lean 4 kernel", "axioms: " + ",".join(ctx.proof["axioms"] or ["none"]),
           "harness/src/c05.rs (AST→scope tree, HIR walk)", "tools/props/c05.py (comparison)"]
